@@ -192,7 +192,7 @@ make_generator = _make_gen      # make_generator(name, vendor, acl_text, ops) ->
 
 
 def run_old_new(device_model, generators, config_text=None, add_implicit=False, acl=True, exclusive=True,
-                hostname="dev1", tags=None, acl_safe=False, filter_spec=None):
+                hostname="dev1", tags=None, acl_safe=False, filter_spec=None, no_new=False):
     """Run the real `annet.gen._old_new_per_device` for one stub CLI device and return its `OldNewResult`
     (`.old`, `.new`, `.err`, `.acl_rules`, `.partial_results`, `.implicit_rules`, ...).
 
@@ -209,6 +209,7 @@ def run_old_new(device_model, generators, config_text=None, add_implicit=False, 
     acl          : False = `--no-acl` (no own-ACL check, no merged ACL, no exclusivity check).
     exclusive    : False = `--no-acl-exclusive`.
 
+    no_new       : True = `--clear` (the generators are not run: the desired configuration is empty).
     filter_spec  : None = no filter option; dict(mode="stdin"|"file"|"ifaces"|"file+ifaces", text=..., ifaces=...):
                    `--filter-acl -` with the text on stdin, `--filter-acl <file>` (a temporary file holding the text),
                    `-i <pattern>` with a Filterer stub whose for_ifaces() returns `ifaces`, or both.
@@ -257,7 +258,7 @@ def run_old_new(device_model, generators, config_text=None, add_implicit=False, 
             filterer = types.SimpleNamespace(for_ifaces=lambda device, pats: filter_spec["ifaces"])
     ctx = agen.OldNewDeviceContext(
         config=config, args=args, downloaded_files={}, failed_files={}, running={}, failed_running={},
-        no_new=False, stdin=stdin, add_annotations=False, add_implicit=add_implicit, do_files_download=False,
+        no_new=bool(no_new), stdin=stdin, add_annotations=False, add_implicit=add_implicit, do_files_download=False,
         gens=dg, fetched_packages={}, failed_packages={}, device_count=1, do_print_perf=False)
     try:
         return agen._old_new_per_device(ctx, dev, filterer)
